@@ -138,6 +138,29 @@ def run(prop, tier, seed, work):
         steps.append({"op": "par", "threads": threads, "rounds": 2, "gomaxprocs": [2, 4, 16][k % 3]})
         sid = "C08-failpar-%d" % k
         scen.append({"sid": sid, "prop": prop, "vals": vals, "steps": steps, "tags": ["failing-decodes"], "dkey": sid})
+    # the SAME holder type / the same scalar-map type decoded by several goroutines at once, each with its own contents
+    for k in range(3 if quick else 40):
+        nm = lambda x: "%s%d" % (x, k)
+        hd = {nm("HdC"): struct([field(1, "default", T("i32")), field(3, "default", T("string")), field(9, "default", M(T("i32"), T("i64"))), field(10, "default", M(T("i16"), T("double")))], unk=True),
+              nm("WHdC"): struct([field(1, "default", T("i32")), field(2, "default", T("string")), field(3, "default", T("string")), field(4, "default", T("i64")),
+                                  field(5, "default", L(T("i16"))), field(6, "optional", T("string", True)), field(9, "default", M(T("i32"), T("i64"))),
+                                  field(10, "default", M(T("i16"), T("double")))])}
+        U.with_defaults(hd)
+        defs.update(hd)
+        vals, threads = [], []
+        for t in range(5):
+            v = {"f": {"1": U.be(t, 4), "2": list(("unknown-%d-%d" % (k, t)).encode()) * (1 + t), "3": list(b"known"), "4": U.be(t * 1000003, 8),
+                       "5": {"nil": False, "items": [U.be(t + j, 2) for j in range(3 + t)]}, "6": {"p": 1, "v": list(b"x" * (t + 1))},
+                       "9": {"nil": False, "ents": [[U.be(j + 1000 * t, 4), U.be(j * 7 + t, 8)] for j in range(150)]},
+                       "10": {"nil": False, "ents": [[U.be(j, 2), U.be(0x4000000000000000 + j + t, 8)] for j in range(60)]}}, "unk": []}
+            vals.append(v)
+            threads.append([{"op": "encode", "ty": nm("WHdC"), "v": t, "buf": {"mode": "rel", "n": 0, "extra": 0}},
+                            {"op": "decode", "ty": nm("HdC"), "from": 0, "dest": "fresh"},
+                            {"op": "decode", "ty": nm("HdC"), "from": 0, "dest": "zero"}])
+        steps = [{"op": "encode", "ty": nm("WHdC"), "v": 0, "buf": {"mode": "rel", "n": 0, "extra": 0}}, {"op": "decode", "ty": nm("HdC"), "from": 0, "dest": "fresh"},
+                 {"op": "par", "threads": threads, "rounds": 12, "gomaxprocs": [16, 4, 2][k % 3]}]
+        sid = "C08-sametype-%d" % k
+        scen.append({"sid": sid, "prop": prop, "vals": vals, "steps": steps, "tags": ["same-type-decodes"], "dkey": sid})
     # steady state on DIFFERENT registered types at the same time: whatever is remembered between calls (last type, last
     # descriptor, scratch values) must not leak from one goroutine's call into another's
     for k in range(3 if quick else 40):
